@@ -521,3 +521,17 @@ pub fn cmd_alpha(args: &[String]) -> i32 {
     }
     0
 }
+
+/// `p3r one-op-lanes`: circuits with 0 / 1 / 2 ALU operations proven under 1 / 2 / 4 ALU lanes (the prover and the preparation
+/// step decide separately whether the ALU table is "dummy only"); `prove_verify` also compares the verifying data the proof
+/// carries with the independently compiled one.
+pub fn cmd_one_op(args: &[String]) -> i32 {
+    let seed: u64 = arg(args, "--seed").and_then(|s| s.parse().ok()).unwrap_or(1);
+    for ops in [0usize, 1, 2, 3] {
+        for lanes in [1usize, 2, 4] {
+            let r = guard(|| alpha_chain("public", 0, lanes, 2, ops, seed)).unwrap_or_else(|e| Err(format!("panic: {e}")));
+            println!("{}", json!({"program": "few-alu-ops", "alu_ops": ops, "lanes": lanes, "accepted": r.is_ok(), "msg": r.err().map(|e| e.chars().take(200).collect::<String>())}));
+        }
+    }
+    0
+}
